@@ -239,7 +239,7 @@ class S3LockWorld(World):
             prev = self._prev.get(req.idx)
             new = self.fake.objs[req.key]
             if prev is not None and prev.body.split(b":", 1)[0] != new.body.split(b":", 1)[0]:
-                age = ENV.clock - prev.lm
+                age = (ENV.clock + self.fake.clock_skew) - prev.lm  # on the server's clock, which stamped LastModified
                 if age <= LEASE:
                     self.server.append(f"{req.actor} took the lock over from a holder whose lease had not lapsed (age {age:.3f}s)")
                 if req.cond is None:
@@ -249,6 +249,7 @@ class S3LockWorld(World):
         from datashard.lock_provider import S3LockProvider
 
         self.fake.load_state({})
+        self.fake.clock_skew = float(self.cfg.get("skew", 0.0))  # server clock ahead of the clients' by this much
         self.adapter.reset()
         ENV.clock = T0 + 100.0
         self.cs = CS()
@@ -472,6 +473,10 @@ def configs(tier: str, seed: int) -> List[Dict[str, Any]]:
     add("s3", "2x1", modes=["blocking", "blocking"], rounds=1, sample=True)
     add("s3", "2x2", modes=["blocking", "blocking"], rounds=2, bound=None if tier != "quick" else 3)
     add("s3", "timeout", modes=["hold_forever", "blocking"], rounds=1, timeout=30.0, expect_timeout=True, horizon=20000)
+    # the S3 server's clock runs 1.5 s ahead of the clients': a fresh lock's LastModified lies in the clients' future
+    add("s3", "2x1/server_clock_ahead", modes=["blocking", "blocking"], rounds=1, skew=1.5)
+    add("s3", "timeout/server_clock_ahead", modes=["hold_forever", "blocking"], rounds=1, timeout=30.0, expect_timeout=True,
+        horizon=20000, skew=1.5)
     add("s3", "2x1/jump1", modes=["blocking", "blocking"], rounds=1, max_jumps=1, bound=2 if tier == "quick" else None)
     add("s3", "2x1/pause1", modes=["blocking", "blocking"], rounds=1, max_pauses=1, bound=1 if tier == "quick" else 3)
     if tier != "quick":
